@@ -1,6 +1,7 @@
 package main
 
 import (
+	"reflect"
 	"encoding/json"
 	"fmt"
 	"io"
@@ -31,6 +32,8 @@ var envConcPhases = []struct{ name, what string }{
 	{"listings", "several goroutines list the symbols / types of a scope (and print it) at the same moment, right after a definition and after a deletion: pure reads, each sees the whole table"},
 	{"churn", "one goroutine deletes 400 old symbols of a scope while another defines 200 new ones; every Define that returned nil is there afterwards, every deleted symbol is gone"},
 	{"snapshot", "writer: Define(v_i), DefineType(t_i) on one scope; readers: Copy / DeepCopy and symbol listings"},
+	{"lockorder", "a chain of scopes root > mod > sub: Addr / Get / Set from the inner scopes (they climb to the parent) against path lookups from the outer scopes (they descend into modules), with definitions queued on every scope"},
+	{"oddvalues", "a scope that holds values reflect refuses to copy / set / read (an unexported field of a host struct): Copy, DeepCopy, String under recover, then ordinary operations on the same scope"},
 	{"stress", "8 goroutines x 400 random operations incl. String, DefineType, Type, DeepCopy, symbol listings on one scope"},
 }
 
@@ -680,6 +683,89 @@ func streamEnvConc(o *Out, r *rand.Rand, n int, thorough bool) {
 			tornReported = true
 			o.Fail(Failure{Oracle: "copy-is-a-snapshot", Key: "env-torn-copy", Input: fmt.Sprintf("writer: Define(v_i), DefineType(t_i) for i < %d on one scope; readers: Copy / DeepCopy", K),
 				Detail: torn + "; the scope never was in that state (after t_i is defined v_i exists)"})
+		}
+	}
+	if on("lockorder") && phase != "" {
+		// operations that hold one scope's lock while they ask for another's must all go the same way (towards the root)
+		root := env.NewEnv()
+		mod, _ := root.NewModule("mod")
+		sub, _ := mod.NewModule("sub")
+		_ = root.Define("zzz", int64(1))
+		_ = mod.Define("yyy", int64(2))
+		stop := make(chan struct{})
+		var wg sync.WaitGroup
+		run := func(f func()) {
+			wg.Add(1)
+			go func() {
+				defer wg.Done()
+				for {
+					select {
+					case <-stop:
+						return
+					default:
+						f()
+					}
+				}
+			}()
+		}
+		run(func() { _, _ = mod.Addr("zzz") })
+		run(func() { _, _ = sub.Addr("zzz") })
+		run(func() { _, _ = sub.Addr("yyy") })
+		run(func() { _, _ = root.GetEnvFromPath([]string{"mod", "sub"}) })
+		run(func() { _, _ = mod.GetEnvFromPath([]string{"sub"}) })
+		run(func() { _, _ = sub.GetEnvFromPath([]string{"mod", "sub"}) })
+		run(func() { _ = root.Define("w", int64(1)) })
+		run(func() { _ = mod.Define("w", int64(1)) })
+		run(func() { _ = sub.Define("w", int64(1)) })
+		run(func() { _, _ = sub.Get("zzz") })
+		run(func() { _ = sub.Set("zzz", int64(2)) })
+		run(func() { _, _ = sub.Type("int64") })
+		d := 1500 * time.Millisecond
+		if thorough {
+			d = 8 * time.Second
+		}
+		time.Sleep(d)
+		close(stop)
+		waitOrDeadlock(o, &wg, "scopes root > mod > sub; goroutines looping: mod.Addr(zzz), sub.Addr(zzz), sub.Addr(yyy), root.GetEnvFromPath([mod sub]), mod.GetEnvFromPath([sub]), sub.GetEnvFromPath([mod sub]), Define(w) on each of the three scopes, sub.Get(zzz), sub.Set(zzz), sub.Type(int64)")
+		o.Sum.Evaluations++
+		o.Sum.Hist["lock-order-scenario"]++
+	}
+	if on("oddvalues") && phase != "" {
+		type hostRec struct {
+			hidden int
+			Pub    int
+		}
+		h := &hostRec{1, 2}
+		e := env.NewEnv()
+		_ = e.DefineValue("u", reflect.ValueOf(h).Elem().Field(0))
+		_ = e.DefineValue("p", reflect.ValueOf(h).Elem().Field(1))
+		_ = e.Define("n", int64(1))
+		guard := func(f func()) {
+			defer func() { _ = recover() }()
+			f()
+		}
+		guard(func() { e.Copy() })
+		guard(func() { e.DeepCopy() })
+		guard(func() { _ = e.String() })
+		guard(func() { e.GetValueSymbols() })
+		guard(func() { _, _ = e.Addr("u") })
+		var wg sync.WaitGroup
+		wg.Add(1)
+		var defErr, getErr error
+		var got interface{}
+		go func() {
+			defer wg.Done()
+			defErr = e.Define("z", int64(5))
+			got, getErr = e.Get("z")
+			e.Delete("n")
+			_ = e.DefineType("T", int64(0))
+		}()
+		waitOrDeadlock(o, &wg, "DefineValue(u, <unexported field of a host struct>); Copy, DeepCopy, String, GetValueSymbols, Addr(u) under recover; then Define(z, 5), Get(z), Delete(n), DefineType(T) on the same scope")
+		o.Sum.Evaluations++
+		o.Sum.Hist["odd-values-scenario"]++
+		if defErr != nil || getErr != nil || got != int64(5) {
+			o.Fail(Failure{Oracle: "scope-stays-usable", Key: "env-unusable-after-odd-value", Input: "DefineValue(u, <unexported field>); Copy / DeepCopy / String under recover; Define(z, 5); Get(z)",
+				Detail: fmt.Sprintf("Define: %v, Get: %v %v", defErr, got, getErr)})
 		}
 	}
 	// stress for the race detector: many goroutines hammering one scope (results unchecked)
